@@ -244,6 +244,22 @@ func c04dGenCond(t *rapid.T, p *c04dProg, fn string) c04dCond {
 				c.Vals = append(c.Vals, c04dStyle(t, "keyword", name[i:j]))
 			default:
 				n := regexp.QuoteMeta(name)
+				if rapid.IntRange(0, 2).Draw(t, "qn_rxcase") == 0 {
+					// meaning depends on the case of the pattern text: must be used as written
+					c.Vals = append(c.Vals, c04dStyle(t, "regex", rapid.SampledFrom([]string{
+						`^\D+$`, `^\D+\.` + n + `$`, `\D\.` + n + `$`, `^\D`, `\D$`,
+						`^\W`, `\W\W`, `^[a-z]+\W[a-z0-9]+$`,
+						`^\S+$`, `\S` + n + `$`,
+						`\B` + n + `$`, `^a\B`, `\Bm$`,
+						`\A` + n + `$`, `\Aa`, `\A[a-z0-9]+\.` + n + `\z`,
+						`^\PL`, `^\P{L}+\.`, `\P{Ll}$`, `^\pL+$`, `\PN$`,
+						`^\Q` + strings.ReplaceAll(n, `\`, ``) + `\E$`,
+						`^[A-Z]`, `[A-Z]`, `^[^A-Z]+$`, `^[^A-Z]+\.` + n + `$`, `^A`, `COM$`,
+						`^\x41`, `^\x61`, `^[\x41-\x5A]`, `^[^\x41-\x5A]+$`,
+						`(?i)^A`, `(?i)` + strings.ToUpper(n) + `$`, `(?P<Label>[a-z0-9]+)\.` + n + `$`,
+					}).Draw(t, "qn_rxc")))
+					continue
+				}
 				c.Vals = append(c.Vals, c04dStyle(t, "regex", rapid.SampledFrom([]string{"^" + n + "$", n + "$", `(^|\.)` + n + "$", `\.net$`, `^[0-9]`, `^(a|b)\.`}).Draw(t, "qn_rx")))
 			}
 		case "qtype":
